@@ -115,7 +115,12 @@ def _shard_entry(args):
     mod = importlib.import_module(modname)
     sub = ctxmod.Ctx(mod.ID, tier, seed, getattr(mod, 'LEVEL', 'exploration'))
     sub.extra['shard'] = shard
-    mod.explore(sub, shard, nshards)
+    try:
+        mod.explore(sub, shard, nshards)
+    finally:
+        cleanup = getattr(mod, 'cleanup', None)  # a forked shard leaves through os._exit: no atexit handlers
+        if cleanup is not None:
+            cleanup()
     sub.extra.pop('shard', None)
     with open(out + '.tmp', 'wb') as fh:
         pickle.dump(sub.export(), fh, protocol=4)
